@@ -827,3 +827,136 @@ Example C04_spec_time_classes_reachable :
   c04_class_t reach_cfg [] reach_long_es reach_long_os (untimed reach_long_es) = 12%N /\
   c04_class_t reach_cfg [] (firstn 20 reach_long_es) (firstn 20 reach_long_os) (untimed (firstn 20 reach_long_es)) = 0%N.
 Proof. exact spec_time_classes_reachable. Qed.
+
+(* ------------------------------------------------------------------------ *)
+(* State of an exchange that is still under way is not touched by ANOTHER request with the same token      *)
+(* (Blockwise/ProofsParked.v; seeded regressions C04-8 / C04-9).                                            *)
+From GoCoap Require Import Blockwise.ProofsParked.
+
+(* A Do for a token that is in flight - the sending cache holds an element under the token (Model.v) / a
+   live one (Timed.v, Deadline.v; whatever deadline the second call carries) - is refused at once and
+   changes NOTHING: the run with the refused call is the run without it plus the one observation of the
+   refusal (Do returns an error, no wire message, table sizes as before).  In particular the exchange that
+   owns the token goes on as if the call had not happened.  Seeded regression C04-8 falsifies it: its
+   refused Do deletes the element of the exchange in flight. *)
+Theorem C04_second_do_refused_and_invisible : forall c w i x es,
+  nth_error (cexch c) i = Some x -> xkind x = 0 -> tget (sending (wa w)) (xtok x) <> None ->
+  run c w (Start i :: es) = refusal i (sizes_of w) :: run c w es.
+Proof. exact second_do_invisible. Qed.
+Print Assumptions C04_second_do_refused_and_invisible.
+
+Theorem C04_second_do_refused_and_invisible_timed : forall c w i x es,
+  nth_error (cexch c) i = Some x -> xkind x = 0 -> cload (tnow w) (tsnd (twa w)) (xtok x) <> None ->
+  trun c w (Ev (Start i) :: es) = refusal i (tsizes_of w) :: trun c w es.
+Proof. exact second_do_invisible_t. Qed.
+Print Assumptions C04_second_do_refused_and_invisible_timed.
+
+Theorem C04_second_do_refused_and_invisible_deadline : forall c dls w i x es,
+  nth_error (cexch c) i = Some x -> xkind x = 0 -> cload (tnow (dw w)) (tsnd (twa (dw w))) (xtok x) <> None ->
+  drun c dls w (Ev (Start i) :: es) = refusal i (tsizes_of (dw w)) :: drun c dls w es.
+Proof. exact second_do_invisible_d. Qed.
+Print Assumptions C04_second_do_refused_and_invisible_deadline.
+
+(* One Handle step, ANY message, application, state (counters of the private tokens non-negative, reassembly
+   entries under application tokens carry their token - both hold in every reachable endpoint) and time:
+   every live element of the sending cache under an application token - the response a download is served
+   from, the request of a Do - is afterwards EXACTLY what it was (validity and data), or it is gone; and it
+   is gone only if the message is a continuation request for that very token that is not handed to the
+   application (d = []) and ends the transfer: an error, or the last block of a response.
+   C04_handle_keeps_live_sending_element leaves open what happens in a step that hands a message to the
+   application; this theorem closes it: a request handed to the application never replaces (nor removes)
+   what is parked under its token, whatever the application answers.  Seeded regression C04-9 falsifies it:
+   its startSendingMessage replaces the parked message by the new answer. *)
+Theorem C04_handle_never_replaces_parked_message : forall app now sctx e r,
+  counters_ok e -> ctok_ok (trcv e) ->
+  let '(e', w, d, nerr) := dhandle app now sctx e r in
+  (forall k dl m, 0 <= k < FRESH -> craw (tsnd e) k = Some (dl, m) -> expired now dl = false ->
+     craw (tsnd e') k = Some (dl, m) \/
+     (craw (tsnd e') k = None /\ mtok r = k /\ wants_to_be_received r = false /\ d = [] /\
+      (nerr = 1 \/ DELETE < mcode m))) /\
+  counters_ok e' /\ ctok_ok (trcv e').
+Proof. exact dhandle_parked. Qed.
+Print Assumptions C04_handle_never_replaces_parked_message.
+
+Theorem C04_request_keeps_parked_message : forall app now e r dl m,
+  counters_ok e -> ctok_ok (trcv e) -> 0 <= mtok r < FRESH ->
+  craw (tsnd e) (mtok r) = Some (dl, m) -> expired now dl = false ->
+  let '(e', w, d, nerr) := thandle app now e r in
+  d <> [] -> craw (tsnd e') (mtok r) = Some (dl, m).
+Proof. exact request_keeps_parked. Qed.
+Print Assumptions C04_request_keeps_parked_message.
+
+(* EVERY script of the timed two-party system (start / deliver any / dup / drop / replay / bump / time-out /
+   expire / Age / Sweep, any order and number), every configuration (no well-formedness needed: any tokens,
+   resources with or without ETag that change at any moment), from the world any script es0 leads to: a message
+   parked at B under an application token - while the clock has not passed its deadline - is still exactly that
+   message, or there was a moment in between at which the token had NO element (the transfer had ended: last
+   block served, continuation error, sweep).  So all blocks B serves for a token between two such moments are
+   slices of ONE message (C04_serve_coherent): a download cannot be switched to another representation by
+   whatever request arrives meanwhile. *)
+Theorem C04_parked_message_never_swapped : forall c es0 es k dl m,
+  let w := treach c (tinit c) es0 in
+  0 <= k < FRESH -> craw (tsnd (twb w)) k = Some (dl, m) ->
+  tnow (treach c w es) <= dl ->
+  craw (tsnd (twb (treach c w es))) k = Some (dl, m) \/
+  exists es1 es2, es = es1 ++ es2 /\ craw (tsnd (twb (treach c w es1))) k = None.
+Proof. exact parked_never_swapped_init. Qed.
+Print Assumptions C04_parked_message_never_swapped.
+
+(* The same with request context deadlines (Deadline.v, any deadline table): B's side of a step is B's side of
+   the timed step. *)
+Theorem C04_parked_message_never_swapped_deadline : forall c dls es0 es k dl m,
+  let w := dreach_w c dls (dinit c) es0 in
+  0 <= k < FRESH -> craw (tsnd (twb (dw w))) k = Some (dl, m) ->
+  tnow (dw (dreach_w c dls w es)) <= dl ->
+  craw (tsnd (twb (dw (dreach_w c dls w es)))) k = Some (dl, m) \/
+  exists es1 es2, es = es1 ++ es2 /\ craw (tsnd (twb (dw (dreach_w c dls w es1)))) k = None.
+Proof. exact parked_never_swapped_d_init. Qed.
+Print Assumptions C04_parked_message_never_swapped_deadline.
+
+(* The two histories of the seeded regressions on the model (canonical cases of the harness): (a) the second Do
+   meets a live element (hypothesis of the theorems above), is refused, the upload goes on: B's application gets
+   the 64 bytes, the first Do returns the 2.04; (b) B parks version 0 (75 bytes) before and after the stale
+   request, answers it 4.08 with an error callback after its application was asked again, and the download ends
+   with exactly version 0.  Class 0 on both traces. *)
+Example C04_second_do_history :
+  cload (tnow (treach second_do_cfg (tinit second_do_cfg) second_do_pre))
+        (tsnd (twa (treach second_do_cfg (tinit second_do_cfg) second_do_pre))) 7 <> None /\
+  (exists o, nth_error (model_obs_t second_do_cfg second_do_es) 4 = Some o /\ o_ret o = [(0, 1)] /\ o_wire o = None) /\
+  (exists o d, nth_error (model_obs_t second_do_cfg second_do_es) 8 = Some o /\ o_side o = 1 /\ o_deliv o = [d] /\
+               plen d = 64 /\ psum d = csum (gen_body 5 64)) /\
+  (exists o d, nth_error (model_obs_t second_do_cfg second_do_es) 9 = Some o /\ o_ret o = [(0, 0)] /\ o_deliv o = [d] /\
+               pcode d = Changed) /\
+  c04_class_t second_do_cfg [] second_do_es (model_obs_t second_do_cfg second_do_es) (untimed second_do_es) = 0%N.
+Proof. exact second_do_history. Qed.
+
+Example C04_stale_request_history :
+  let w0 := treach stale_cfg (tinit stale_cfg) stale_pre in
+  let w1 := treach stale_cfg w0 [Ev (Replay 0)] in
+  (exists m, craw (tsnd (twb w0)) 7 = Some (3600, m) /\ mbody m = res_body (R 11 75 false 42) 0 /\
+             craw (tsnd (twb w1)) 7 = Some (3600, m)) /\
+  (exists o r, nth_error (model_obs_t stale_cfg stale_es) 6 = Some o /\ o_side o = 1 /\ o_err o = 1 /\
+               o_wire o = Some (false, r) /\ pcode r = Incomplete /\ blen (o_deliv o) = 1) /\
+  (exists o d, nth_error (model_obs_t stale_cfg stale_es) 13 = Some o /\ o_ret o = [(0, 0)] /\ o_deliv o = [d] /\
+               plen d = 75 /\ psum d = csum (res_body (R 11 75 false 42) 0)) /\
+  c04_class_t stale_cfg [] stale_es (model_obs_t stale_cfg stale_es) (untimed stale_es) = 0%N.
+Proof. exact stale_request_history. Qed.
+
+(* SpecTime's class 13 (a response body that is the beginning of one representation of the resource followed by
+   the rest of a different one) refines class 1: on the model trace of EVERY timed script of a well-formed
+   configuration no delivery is such a splice (corollary of C04_timed_exchange_safety_spec). *)
+Theorem C04_timed_exchange_no_version_splice : forall c, cfg_wf c -> forall es, Forall (tbump_ok c) es ->
+  Forall (fun o => Forall (fun d => version_splice_class c (untimed es) (o_side o) d = 0%N) (o_deliv o)) (model_obs_t c es).
+Proof. exact timed_exchange_no_version_splice. Qed.
+Print Assumptions C04_timed_exchange_no_version_splice.
+
+(* ... and the class is reachable: the trace seeded regression C04-9 produces on history (b) - 78 bytes, the first
+   32 of version 0 followed by bytes 32.. of version 1 - evaluates to 13, the trace with version 0 to 0, a body that
+   is no such splice to 1. *)
+Example C04_version_splice_reachable :
+  let r := R 11 75 false 42 in
+  c04_class_t stale_cfg [] splice_es
+    (splice_obs 78 (csum (firstn 32 (res_body r 0) ++ skipn 32 (res_body r 1)))) (untimed splice_es) = 13%N /\
+  c04_class_t stale_cfg [] splice_es (splice_obs 75 (csum (res_body r 0))) (untimed splice_es) = 0%N /\
+  c04_class_t stale_cfg [] splice_es (splice_obs 76 (csum (res_body r 0 ++ [7]))) (untimed splice_es) = 1%N.
+Proof. exact version_splice_reachable. Qed.
